@@ -29,17 +29,17 @@ import (
 
 // msgView is every observable of a message, rendered comparably.
 type msgView struct {
-	IsRequest                                bool
-	New, Restart, Update, Cancel, Paused     bool
-	TransferID                               uint64
-	Pull, Voucher, RestartExisting           bool // request only
-	VType                                    string
-	VoucherCBOR, SelectorCBOR                string
-	BaseCid                                  string
-	RestartChid                              string
-	Complete, ValidationResult, Accepted     bool // response only
-	EmptyVRes                                bool
-	panicAt                                  string
+	IsRequest                            bool
+	New, Restart, Update, Cancel, Paused bool
+	TransferID                           uint64
+	Pull, Voucher, RestartExisting       bool // request only
+	VType                                string
+	VoucherCBOR, SelectorCBOR            string
+	BaseCid                              string
+	RestartChid                          string
+	Complete, ValidationResult, Accepted bool // response only
+	EmptyVRes                            bool
+	panicAt                              string
 }
 
 func viewMsg(m datatransfer.Message) (v msgView) {
@@ -138,7 +138,10 @@ func genType(r *rand.Rand) string {
 
 type fakeExt map[graphsync.ExtensionName]datamodel.Node
 
-func (f fakeExt) Extension(n graphsync.ExtensionName) (datamodel.Node, bool) { d, ok := f[n]; return d, ok }
+func (f fakeExt) Extension(n graphsync.ExtensionName) (datamodel.Node, bool) {
+	d, ok := f[n]
+	return d, ok
+}
 
 // builtMsg is a constructed message with the plain values it was built from (for the
 // independent encoder) and its expected kind.
@@ -300,6 +303,15 @@ func TestC12RoundTrip(t *testing.T) {
 			ks := kinds(b.m)
 			if len(ks) != 1 || (ks[0] != b.kind && b.kind[:3] != "ACC") {
 				c.Violation("C12", "kind-not-exclusive "+b.ctor, "%s message classified as %v, want exactly [%s]", b.ctor, ks, b.kind)
+			}
+			// an earlier send that failed half-way (stream reset after k bytes) must leave no trace in
+			// what the process encodes next
+			if c.Rng.Intn(3) == 0 {
+				prior := buildMsg(c.Rng, c.Rng.Intn(12))
+				fw := &failingWriter{after: c.Rng.Intn(40)}
+				if err := prior.m.ToNet(fw); err != nil {
+					c.Count("failed_writes_before_encode", 1)
+				}
 			}
 			// network form
 			var buf bytes.Buffer
@@ -608,4 +620,20 @@ func toPlain(v any) any {
 		return int64(x)
 	}
 	return v
+}
+
+// failingWriter accepts `after` bytes and then fails every write (a stream that was reset).
+type failingWriter struct{ after, n int }
+
+func (w *failingWriter) Write(p []byte) (int, error) {
+	if w.n+len(p) > w.after {
+		k := w.after - w.n
+		if k < 0 {
+			k = 0
+		}
+		w.n += k
+		return k, errors.New("stream reset")
+	}
+	w.n += len(p)
+	return len(p), nil
 }
